@@ -206,8 +206,9 @@ func cellFrom(m map[string]any) wtCell {
 }
 
 type chunkReader struct {
-	data   []byte
-	chunks []int
+	data    []byte
+	chunks  []int
+	eofWith bool // the last data is returned together with io.EOF (allowed by the io.Reader contract)
 }
 
 func (c *chunkReader) Read(p []byte) (int, error) {
@@ -224,6 +225,10 @@ func (c *chunkReader) Read(p []byte) (int, error) {
 	copy(p, c.data[:n])
 	c.data = c.data[n:]
 	c.chunks[0] -= n
+	if c.eofWith && len(c.data) == 0 {
+		c.chunks = nil
+		return n, io.EOF
+	}
 	return n, nil
 }
 
@@ -250,7 +255,7 @@ func writeCell(conn *webtrans.Conn, c wtCell, seed int64) (payload []byte, errs 
 		if err == nil {
 			err = conn.WritePreparedMessage(pm)
 		}
-	case "writer", "string", "readfrom":
+	case "writer", "string", "readfrom", "readfromeof":
 		var w io.WriteCloser
 		w, err = conn.NextWriter(mt)
 		if err != nil {
@@ -273,8 +278,8 @@ func writeCell(conn *webtrans.Conn, c wtCell, seed int64) (payload []byte, errs 
 				}
 				rest = rest[n:]
 			}
-		case "readfrom":
-			_, err = w.(io.ReaderFrom).ReadFrom(&chunkReader{data: payload, chunks: append([]int(nil), c.Chunks...)})
+		case "readfrom", "readfromeof":
+			_, err = w.(io.ReaderFrom).ReadFrom(&chunkReader{data: payload, chunks: append([]int(nil), c.Chunks...), eofWith: c.Api == "readfromeof"})
 		}
 		if err == nil {
 			err = w.Close()
@@ -293,7 +298,7 @@ type rbMsg struct {
 }
 
 // readBack reads all messages from wire under the given fragmentation; want = expected payloads in order.
-func readBack(wire []byte, mode string, seed int64, want [][]byte, readBuf int) (msgs []rbMsg, errs string, pan string) {
+func readBack(wire []byte, mode string, seed int64, want [][]byte, readBuf int, limit ...int64) (msgs []rbMsg, errs string, pan string) {
 	defer func() {
 		if r := recover(); r != nil {
 			pan = fmt.Sprint(r)
@@ -321,6 +326,9 @@ func readBack(wire []byte, mode string, seed int64, want [][]byte, readBuf int) 
 	}
 	st := &memStream{r: fr}
 	conn := webtrans.NewConn(nil, st, false, readBuf, 0, nil, nil, nil)
+	if len(limit) > 0 && limit[0] > 0 {
+		conn.SetReadLimit(limit[0]) // a per-message limit that no message of the sequence exceeds
+	}
 	for i := 0; i < 10000; i++ {
 		var mt int
 		var p []byte
@@ -415,6 +423,25 @@ func wtwScenario(name string, cells []wtCell, pool bool, seed int64) Scenario {
 				if e != "" {
 					rbErr[key] = e
 				}
+			}
+		}
+		// the read limit is a limit per message: a sequence whose messages are each within it is read whatever it adds up to
+		if maxLen := func() (m int64) {
+			for _, p := range want {
+				m = max(m, int64(len(p)))
+			}
+			return
+		}(); len(want) >= 2 && maxLen > 0 && pan == "" {
+			m, e, p := readBack(all, "rand", seed, want, 0, maxLen)
+			if m == nil {
+				m = []rbMsg{}
+			}
+			rb["limit/0"] = m
+			if p != "" {
+				pan = "readback limit/0: " + p
+			}
+			if e != "" {
+				rbErr["limit/0"] = e
 			}
 		}
 		cs := make([]any, len(cells))
